@@ -176,6 +176,11 @@ TSave ==
                       {<<c, "ChunkToSave">> : c \in {x \in {"section Y values", "sky light", "block light", "status", "height-map keys (other than the six names)"} \cup HMSet : ~SaveFormOK(x, Ev.sv, f)}}
                       \cup Failing({ <<<<"ChunkFromSave fails on the save form ChunkToSave produced", Ev.what>>, ~Ev.ferr>> })
                       \cup (IF Ev.ferr THEN {} ELSE
+                              \* the chunk ChunkFromSave returned is a value of its own: editing it changes neither the
+                              \* chunk that was saved nor what a second conversion of the same save form returns
+                              Failing({ <<<<"editing the chunk ChunkFromSave returned changes the chunk ChunkToSave was given", "save round trip">>, Ev.srcsame>>,
+                                        <<<<"editing the chunk ChunkFromSave returned changes what converting the same save form again returns", "save round trip">>, Ev.againsame>> })
+                              \cup
                               Differs(rest, Ev.d, r, secs, "save round trip")
                               \cup Coarse(Ev.direct, BlockComps, Ev.d, r, "ChunkFromSave misreads the block states of the save form ChunkToSave produced",
                                           "save round trip of a section held as direct ids (more than 256 block states seen)", "save round trip")
